@@ -42,6 +42,9 @@ def scratch(prefix="verif"):
 
 
 def cleanup():
+    if os.environ.get("VERIF_KEEP"):
+        log("keeping scratch directories: %s" % _scratch)
+        return
     for d in _scratch:
         shutil.rmtree(d, ignore_errors=True)
     _scratch.clear()
